@@ -162,7 +162,7 @@ theorem source_kernels_match :
     instantiations, and `increase_count` (body of `define_hasher!`) for all four, as TRANSLATED from the Rust on every
     run (tools/inventory_kernels_code.py → `CC.Gen.Kernels`), equal the model's `putBlock` / `increaseCount`.
     Individual facts: `CC.Src.src_blake_put_block_*`, `CC.Src.src_blake_increase_count_*` (lean/CC/Blake/Src.lean).
-    Not translated: `update` / `finalize_into_dirty` (closures over `BlockBuffer`). -/
+    `update` / `finalize_into_dirty` (closures over `BlockBuffer`): `source_glue_match` below. -/
 theorem source_code_match :
     CC.Gen.Kernels.blake_errors = [] ∧
     (∀ (M : Mach) (c : Compressor (BitVec 128)) (block : List (BitVec 8)) (t : BitVec 32 × BitVec 32),
@@ -180,5 +180,78 @@ theorem source_code_match :
   ⟨CC.Src.src_blake_clean, CC.Src.src_blake_put_block_u32x4, CC.Src.src_blake_put_block_u64x4,
    fun p t c => ⟨CC.Src.src_blake_increase_count_224 p t c, CC.Src.src_blake_increase_count_256 p t c⟩,
    fun p t c => ⟨CC.Src.src_blake_increase_count_384 p t c, CC.Src.src_blake_increase_count_512 p t c⟩⟩
+
+/-- **Source tie, glue.**  `Default::default`, `Update::update`, `FixedOutputDirty::finalize_into_dirty` and
+    `Reset::reset` of the four `define_hasher!` instantiations, as TRANSLATED from hashes/blake/src/lib.rs on every run
+    (tools/inventory_kernels_glue.py → `CC.Gen.Kernels`), equal the model's `Hasher.default` / `update` /
+    `finalizeIntoDirty` / `reset` on the flat encoding of the struct fields (`CC.Src.blakeEnc`, `CC.Src.blakeEncOut`),
+    for every machine, both profiles, every state (for `finalize_into_dirty`: with the block-buffer invariant
+    `buffer.pos ≤ $buf`) and every input, up to the panic message (`CC.Src.noMsg`).  `$compressor::finalize` is a
+    parameter of the generated definition, instantiated with the model's `finalizeC`.
+    Individual facts: `CC.Src.src_blake_{default,update,finalize_into_dirty,reset}_*` (lean/CC/Blake/Src.lean); the
+    generic part is lean/CC/Lemmas/SrcGlueBlake.lean (`update_glue`, `finalize_glue`). -/
+theorem source_glue_match :
+    CC.Gen.Kernels.blake_errors = [] ∧
+    -- the struct declarations: `Clone` is derived (field-wise copy); a hand-written `Clone` makes the translator fail
+    CC.Gen.Kernels.blake_structs =
+      [("Compressor256", "struct", ["h"], ["Clone", "Copy", "Default"], []),
+       ("Compressor512", "struct", ["h"], ["Clone", "Copy", "Default"], []),
+       ("Blake224", "struct", ["compressor", "buffer", "t"], ["Clone"], ["Default"]),
+       ("Blake256", "struct", ["compressor", "buffer", "t"], ["Clone"], ["Default"]),
+       ("Blake384", "struct", ["compressor", "buffer", "t"], ["Clone"], ["Default"]),
+       ("Blake512", "struct", ["compressor", "buffer", "t"], ["Clone"], ["Default"])] ∧
+    (∀ (M : Mach), CC.Src.blakeEnc (Hasher.default (kit224 M)) = CC.Gen.Kernels.blake_default_224) ∧
+    (∀ (M : Mach) (p : Profile) (h : Hasher 32 (BitVec 128)) (data : List (BitVec 8)),
+      CC.Src.noMsg (CC.Gen.Kernels.blake_update_224 M p h.compressor.h0 h.compressor.h1 h.buffer h.t.1 h.t.2 data)
+        = CC.Src.noMsg (update (kit224 M) p h data >>= fun h' => .ok (CC.Src.blakeEnc h'))) ∧
+    (∀ (M : Mach) (p : Profile) (h : Hasher 32 (BitVec 128)), h.buffer.pos ≤ 64 → ∀ (out : List (BitVec 8)),
+      CC.Src.noMsg (CC.Gen.Kernels.blake_finalize_into_dirty_224 (fun a b => finalizeC (vops32 M) ⟨a, b⟩) M p
+          h.compressor.h0 h.compressor.h1 h.buffer h.t.1 h.t.2 out)
+        = CC.Src.noMsg (finalizeIntoDirty (kit224 M) p h >>= fun r => .ok (CC.Src.blakeEncOut r))) ∧
+    (∀ (M : Mach) (h : Hasher 32 (BitVec 128)),
+      CC.Src.blakeEnc (reset (kit224 M) h)
+        = CC.Gen.Kernels.blake_reset_224 h.compressor.h0 h.compressor.h1 h.buffer h.t.1 h.t.2) ∧
+    (∀ (M : Mach), CC.Src.blakeEnc (Hasher.default (kit256 M)) = CC.Gen.Kernels.blake_default_256) ∧
+    (∀ (M : Mach) (p : Profile) (h : Hasher 32 (BitVec 128)) (data : List (BitVec 8)),
+      CC.Src.noMsg (CC.Gen.Kernels.blake_update_256 M p h.compressor.h0 h.compressor.h1 h.buffer h.t.1 h.t.2 data)
+        = CC.Src.noMsg (update (kit256 M) p h data >>= fun h' => .ok (CC.Src.blakeEnc h'))) ∧
+    (∀ (M : Mach) (p : Profile) (h : Hasher 32 (BitVec 128)), h.buffer.pos ≤ 64 → ∀ (out : List (BitVec 8)),
+      CC.Src.noMsg (CC.Gen.Kernels.blake_finalize_into_dirty_256 (fun a b => finalizeC (vops32 M) ⟨a, b⟩) M p
+          h.compressor.h0 h.compressor.h1 h.buffer h.t.1 h.t.2 out)
+        = CC.Src.noMsg (finalizeIntoDirty (kit256 M) p h >>= fun r => .ok (CC.Src.blakeEncOut r))) ∧
+    (∀ (M : Mach) (h : Hasher 32 (BitVec 128)),
+      CC.Src.blakeEnc (reset (kit256 M) h)
+        = CC.Gen.Kernels.blake_reset_256 h.compressor.h0 h.compressor.h1 h.buffer h.t.1 h.t.2) ∧
+    (∀ (M : Mach), CC.Src.blakeEnc (Hasher.default (kit384 M)) = CC.Gen.Kernels.blake_default_384) ∧
+    (∀ (M : Mach) (p : Profile) (h : Hasher 64 (BitVec 256)) (data : List (BitVec 8)),
+      CC.Src.noMsg (CC.Gen.Kernels.blake_update_384 M p h.compressor.h0 h.compressor.h1 h.buffer h.t.1 h.t.2 data)
+        = CC.Src.noMsg (update (kit384 M) p h data >>= fun h' => .ok (CC.Src.blakeEnc h'))) ∧
+    (∀ (M : Mach) (p : Profile) (h : Hasher 64 (BitVec 256)), h.buffer.pos ≤ 128 → ∀ (out : List (BitVec 8)),
+      CC.Src.noMsg (CC.Gen.Kernels.blake_finalize_into_dirty_384 (fun a b => finalizeC (vops64 M) ⟨a, b⟩) M p
+          h.compressor.h0 h.compressor.h1 h.buffer h.t.1 h.t.2 out)
+        = CC.Src.noMsg (finalizeIntoDirty (kit384 M) p h >>= fun r => .ok (CC.Src.blakeEncOut r))) ∧
+    (∀ (M : Mach) (h : Hasher 64 (BitVec 256)),
+      CC.Src.blakeEnc (reset (kit384 M) h)
+        = CC.Gen.Kernels.blake_reset_384 h.compressor.h0 h.compressor.h1 h.buffer h.t.1 h.t.2) ∧
+    (∀ (M : Mach), CC.Src.blakeEnc (Hasher.default (kit512 M)) = CC.Gen.Kernels.blake_default_512) ∧
+    (∀ (M : Mach) (p : Profile) (h : Hasher 64 (BitVec 256)) (data : List (BitVec 8)),
+      CC.Src.noMsg (CC.Gen.Kernels.blake_update_512 M p h.compressor.h0 h.compressor.h1 h.buffer h.t.1 h.t.2 data)
+        = CC.Src.noMsg (update (kit512 M) p h data >>= fun h' => .ok (CC.Src.blakeEnc h'))) ∧
+    (∀ (M : Mach) (p : Profile) (h : Hasher 64 (BitVec 256)), h.buffer.pos ≤ 128 → ∀ (out : List (BitVec 8)),
+      CC.Src.noMsg (CC.Gen.Kernels.blake_finalize_into_dirty_512 (fun a b => finalizeC (vops64 M) ⟨a, b⟩) M p
+          h.compressor.h0 h.compressor.h1 h.buffer h.t.1 h.t.2 out)
+        = CC.Src.noMsg (finalizeIntoDirty (kit512 M) p h >>= fun r => .ok (CC.Src.blakeEncOut r))) ∧
+    (∀ (M : Mach) (h : Hasher 64 (BitVec 256)),
+      CC.Src.blakeEnc (reset (kit512 M) h)
+        = CC.Gen.Kernels.blake_reset_512 h.compressor.h0 h.compressor.h1 h.buffer h.t.1 h.t.2) :=
+  ⟨CC.Src.src_blake_clean, CC.Src.src_blake_structs,
+   CC.Src.src_blake_default_224, CC.Src.src_blake_update_224,
+   fun M p h hpos out => CC.Src.src_blake_finalize_into_dirty_224 M p h hpos out, CC.Src.src_blake_reset_224,
+   CC.Src.src_blake_default_256, CC.Src.src_blake_update_256,
+   fun M p h hpos out => CC.Src.src_blake_finalize_into_dirty_256 M p h hpos out, CC.Src.src_blake_reset_256,
+   CC.Src.src_blake_default_384, CC.Src.src_blake_update_384,
+   fun M p h hpos out => CC.Src.src_blake_finalize_into_dirty_384 M p h hpos out, CC.Src.src_blake_reset_384,
+   CC.Src.src_blake_default_512, CC.Src.src_blake_update_512,
+   fun M p h hpos out => CC.Src.src_blake_finalize_into_dirty_512 M p h hpos out, CC.Src.src_blake_reset_512⟩
 
 end CC.Thm.C04
